@@ -470,7 +470,7 @@ fn gen_random(rng: &mut Rng, nfiles: usize, nsources: usize, maxlen: usize) -> V
     let n = rng.range(1, maxlen);
     let mut h = vec![];
     let mut inits = 0u64;
-    let protocol = rng.chance(3, 4); // mostly read results the way loader-core does
+    let protocol = rng.chance(7, 8); // mostly read results the way loader-core does
     for _ in 0..n {
         let pick_t = |rng: &mut Rng, inits: u64| -> u64 {
             match rng.below(20) {
@@ -690,9 +690,18 @@ fn main() {
             if at == "get_result" && !hcut[..n - 1].iter().zip(r.iter()).any(|(c, x)| sets_result(c, x)) {
                 cls = "abort:get_result:no result was ever stored".to_string();
             }
+            // the class is attached only if an independent run explains the abort: the parser called
+            // directly panicked on that source / a fresh loader instance given the same files aborted too
+            let explained = match hcut.last() {
+                Some(Call::Initiate(_, s)) | Some(Call::Load(_, _, s)) => matches!(&pres[*s], PRes::Trap(pm) if m.ends_with(pm.as_str())),
+                Some(Call::Emit(_)) => w.emit_states.iter().any(|(i, k)| *i == n - 1 && matches!(&eres[eindex[k]], ERes::Trap(em) if em == m)),
+                _ => cls == "abort:get_result:no result was ever stored",
+            };
+            if !explained { cls = format!("unexplained-{}", cls); }
             *abort_classes.entry(cls.clone()).or_insert(0) += 1;
             classes.push(cls);
         }
+        let aborted = !classes.is_empty();
         let d = json!({
             "origin": origin[hi],
             "calls": hcut.iter().map(|c| descr_call(c, &files, &sources)).collect::<Vec<_>>(),
@@ -723,6 +732,15 @@ fn main() {
             for (c, x) in hcut.iter().zip(r.iter()) { match (c, x) { (Call::Initiate(..), Resp::Id(t)) if *t != 0 => { live.insert(*t); } (Call::Free(t), _) => { live.remove(t); } _ => {} } m = m.max(live.len()); } m };
         bump(format!("max_live_tasks.{}", max_live.min(6)), &mut dist);
         cases.push(term, d);
+        if aborted && n >= 2 {
+            // the executed prefix before the aborting call, as a case of its own and without any class:
+            // a violation that precedes the abort must not hide behind the abort's known-finding class
+            let term = format!("mkCase ptab {} {} {}", coq_list(&used, |e| format!("e{}", e)),
+                coq_list(&hcut[..n - 1], coq_call), coq_list(&r[..n - 1], |x| coq_resp(x, &names)));
+            cases.push(term, json!({"origin": "prefix-before-abort",
+                "calls": hcut[..n - 1].iter().map(|c| descr_call(c, &files, &sources)).collect::<Vec<_>>(),
+                "responses": r[..n - 1].iter().map(resp_json).collect::<Vec<_>>(), "classes": []}));
+        }
     }
     cases.write(&args.out);
     let _ = fs::remove_dir_all(&scratch);
